@@ -25,6 +25,12 @@ def run(ctx):
         for k, v in optimizers.param_variants(name):
             js.append({"name": name, "kind": "cont-sym", "specs": trace.task_specs(rng, "cont-sym", 3), "objective": "sphere", "minmax": "min", "seed": rng.randrange(1, 10 ** 6),
                        "cfg": {"max_cycles": 2, "fitness_error": None, k: v}, "mode": "serial", "trace": False})
+    # every integer parameter at the smallest / largest value its validators accept (thresholds at their lowest: splits, eliminations, restarts that the
+    # documented values never reach), with a cycle budget long enough for counters to reach them
+    for name in optimizers.names():
+        for k, v in optimizers.param_extremes(name):
+            js.append({"name": name, "kind": "cont-sym+extreme-parameter", "specs": trace.task_specs(rng, "cont-sym", 3), "objective": rng.choice(["sphere", "rastrigin"]), "minmax": "min",
+                       "seed": rng.randrange(1, 10 ** 6), "cfg": {"max_cycles": 25, "fitness_error": None, k: v}, "mode": "serial", "trace": False})
     # re-configured instances: first run under a smaller / larger population, then set_config_parameters(judged configuration)
     for name in optimizers.names():
         base = optimizers.CFGS[name][1]["population_size"]
